@@ -87,6 +87,9 @@ func c04Spellings(maxUp int) []c04Spelling {
 		c04Spelling{Name: "policy-glob-alias", Plain: "public/../obj1", Wire: "public/../obj1", Class: "in-bucket-alias"},
 		c04Spelling{Name: "in-bucket-leading-slash", Plain: "/obj1", Wire: "/obj1", Class: "in-bucket-alias"},
 		c04Spelling{Name: "in-bucket-trailing-double-slash", Plain: "dir//", Wire: "dir//", Class: "in-bucket-alias"},
+		// a file object's key with a trailing slash names another (directory) object, not the file
+		c04Spelling{Name: "file-key-with-trailing-slash", Plain: "obj1/", Wire: "obj1/", Class: "in-bucket-alias"},
+		c04Spelling{Name: "nested-file-key-with-trailing-slash", Plain: "dir/obj2/", Wire: "dir/obj2/", Class: "in-bucket-alias"},
 		// the part file and the directory of the fixture's in-progress upload, named as object keys ({UPLOADDIR} is
 		// filled in per request: .sgwtmp/multipart/<sha256 of the upload's key>/<upload id>)
 		c04Spelling{Name: "upload-part-file", Plain: "{UPLOADDIR}/1", Wire: "{UPLOADDIR}/1", Class: "bookkeeping"},
@@ -368,8 +371,18 @@ func C04(r *ck.Run) {
 					}
 					// reads through an alias must not return the aliased object's data
 					if resp.Err == nil && resp.Status < 300 && c.Sp.Class == "in-bucket-alias" && (c.Param == "key") {
-						if bytes.Contains(resp.Body, []byte(canaryObj1)) || bytes.Contains(resp.Body, []byte(canaryObj2)) {
+						if bytes.Contains(resp.Body, []byte(canaryObj1)) || bytes.Contains(resp.Body, []byte(canaryObj2)) || bytes.Contains(resp.Body, []byte(canaryTagVal)) {
 							an = append(an, "alias-resolved-on-read")
+						}
+					}
+					// ... nor may an alias serve as a copy source for the aliased object's data
+					if resp.Err == nil && resp.Status < 300 && c.Sp.Class == "in-bucket-alias" && strings.HasPrefix(c.Param, "copy-source-key") {
+						for _, d := range inside {
+							key := strings.SplitN(d[2:], " [", 2)[0]
+							if data, err := readFileMax(filepath.Join(w.Scratch, strings.TrimPrefix(key, "all:")), 1<<20); err == nil && (bytes.Contains(data, []byte(canaryObj1)) || bytes.Contains(data, []byte(canaryObj2))) {
+								an = append(an, "alias-resolved-as-copy-source")
+								break
+							}
 						}
 					}
 				}
